@@ -603,11 +603,188 @@ def gen_format_table(repo):
     return "\n".join(out) + "\n"
 
 
+# ------------------------------------------------------------------ errors.Location
+
+
+LOC_FIELDS = {"_line": "lo_line", "_column": "lo_column", "_cell": "lo_cell", "_sheet": "lo_sheet"}
+LOC_FLAGS = {"_has_column": "lo_has_column", "_has_cell": "lo_has_cell", "_has_sheet": "lo_has_sheet"}
+LOC_ORDER = ["lo_line", "lo_column", "lo_cell", "lo_sheet"]
+
+
+def _self_attr(n):
+    return n.attr if isinstance(n, ast.Attribute) and isinstance(n.value, ast.Name) and n.value.id == "self" else None
+
+
+def gen_location(repo):
+    """errors.Location: the methods that move the counters (asserts become the guard, assignments are applied in order)
+    and __str__ (a string built from literals, os.path.basename and %d of counter + 1 under if self._has_x)."""
+    err = Consts(os.path.join(repo, "cutplace/errors.py"))
+    cls = err.cls("Location")
+    out = ["(* GENERATED by tools/py2v.py from cutplace/errors.py (class Location) -- do not edit; regenerated on every run *)",
+           "From CP Require Import Model.Base Spec.FieldSpec Model.Location.",
+           "Definition dec_of (n : nat) : text := nat_text (Z.of_nat n)."]
+
+    def int_expr(n, env, params):
+        if isinstance(n, ast.Constant) and isinstance(n.value, int) and not isinstance(n.value, bool) and 0 <= n.value < 1000:
+            return "%d%%nat" % n.value
+        if isinstance(n, ast.Name) and n.id in params:
+            return n.id
+        a = _self_attr(n)
+        if a in LOC_FIELDS:
+            return env[LOC_FIELDS[a]]
+        if isinstance(n, ast.BinOp) and isinstance(n.op, ast.Add):
+            return "(%s + %s)%%nat" % (int_expr(n.left, env, params), int_expr(n.right, env, params))
+        fail(n, "Location: integer expression not whitelisted")
+
+    def guard(n, env, params):
+        """an assert's condition as a bool over nat counters; `x is not None` holds for every nat"""
+        if isinstance(n, ast.Compare) and len(n.ops) == 1:
+            l, r, op = n.left, n.comparators[0], n.ops[0]
+            if isinstance(op, ast.IsNot) and isinstance(r, ast.Constant) and r.value is None and isinstance(l, ast.Name) and l.id in params:
+                return "true"
+            tab = {ast.Gt: "Nat.ltb %(b)s %(a)s", ast.GtE: "Nat.leb %(b)s %(a)s", ast.Lt: "Nat.ltb %(a)s %(b)s", ast.LtE: "Nat.leb %(a)s %(b)s"}
+            if type(op) in tab:
+                return "(" + tab[type(op)] % {"a": int_expr(l, env, params), "b": int_expr(r, env, params)} + ")"
+        a = _self_attr(n)
+        if a in LOC_FLAGS:
+            return "(%s l)" % LOC_FLAGS[a]
+        fail(n, "Location: assert condition not whitelisted")
+
+    def mutator(name, n_params):
+        fn = err.func(name, cls.body)
+        params = [a.arg for a in fn.args.args[1:]]
+        if len(params) != n_params or fn.args.vararg or fn.args.kwarg or fn.args.kwonlyargs:
+            fail(fn, "Location.%s: unexpected parameters" % name)
+        env = {v: "(%s l)" % v for v in LOC_ORDER}
+        guards = []
+        for st in fn.body:
+            if isinstance(st, ast.Expr) and isinstance(st.value, ast.Constant) and isinstance(st.value.value, str):
+                continue
+            if isinstance(st, ast.Assert):
+                guards.append(guard(st.test, env, params))
+            elif isinstance(st, ast.AugAssign) and isinstance(st.op, ast.Add) and _self_attr(st.target) in LOC_FIELDS:
+                f = LOC_FIELDS[_self_attr(st.target)]
+                env[f] = "(%s + %s)%%nat" % (env[f], int_expr(st.value, env, params))
+            elif isinstance(st, ast.Assign) and len(st.targets) == 1 and _self_attr(st.targets[0]) in LOC_FIELDS:
+                env[LOC_FIELDS[_self_attr(st.targets[0])]] = int_expr(st.value, env, params)
+            else:
+                fail(st, "Location.%s: statement not whitelisted" % name)
+        guards = [g for g in guards if g != "true"] or ["true"]
+        rec = "{| lo_path := lo_path l; " + "; ".join("%s := %s" % (v, env[v]) for v in LOC_ORDER) + \
+              "; lo_has_column := lo_has_column l; lo_has_cell := lo_has_cell l; lo_has_sheet := lo_has_sheet l |}"
+        sig = "".join(" (%s : nat)" % q for q in params)
+        out.append("Definition g_%s (l : location)%s : option location :=\n  if %s then Some %s else None." % (name, sig, " && ".join(guards), rec))
+        # the default of the amount, where there is one
+        for q, d in zip(params[::-1], fn.args.defaults[::-1]):
+            out.append("Definition g_%s_default_%s : nat := %s." % (name, q, int_expr(d, env, [])))
+
+    for name, k in (("advance_column", 1), ("advance_cell", 1), ("set_cell", 1), ("advance_line", 1), ("advance_sheet", 0)):
+        mutator(name, k)
+
+    # property getters: which counter they return and which flag they assert
+    getters = {}
+
+    def getter(fn):
+        field, need = None, []
+        for st in fn.body:
+            if isinstance(st, ast.Expr) and isinstance(st.value, ast.Constant):
+                continue
+            if isinstance(st, ast.Assert) and _self_attr(st.test) in LOC_FLAGS:
+                need.append(LOC_FLAGS[_self_attr(st.test)])
+            elif isinstance(st, ast.Return) and _self_attr(st.value) in LOC_FIELDS:
+                field = LOC_FIELDS[_self_attr(st.value)]
+            else:
+                fail(st, "Location getter: statement not whitelisted")
+        if field is None:
+            fail(fn, "Location getter returns no counter")
+        return field, need
+
+    for st in cls.body:
+        if isinstance(st, ast.FunctionDef) and any(ast.unparse(d) == "property" for d in st.decorator_list):
+            getters[st.name] = getter(st)
+        if isinstance(st, ast.Assign) and isinstance(st.value, ast.Call) and ast.unparse(st.value.func) == "property" and st.value.args:
+            getters[ast.unparse(st.targets[0])] = getter(err.func(ast.unparse(st.value.args[0]), cls.body))
+
+    fn = err.func("__str__", cls.body)
+    counter = [0]
+
+    def counter_expr(n, known):
+        """self.<getter> + 1 (or a private counter) as a nat expression; a getter's assert must be covered by an enclosing if"""
+        if isinstance(n, ast.BinOp) and isinstance(n.op, ast.Add):
+            return "(%s + %s)%%nat" % (counter_expr(n.left, known), counter_expr(n.right, known))
+        if isinstance(n, ast.Constant) and isinstance(n.value, int) and not isinstance(n.value, bool) and 0 <= n.value < 1000:
+            return "%d%%nat" % n.value
+        a = _self_attr(n)
+        if a in LOC_FIELDS:
+            return "(%s l)" % LOC_FIELDS[a]
+        if a in getters:
+            field, need = getters[a]
+            if not set(need) <= set(known):
+                fail(n, "Location.__str__: %s is read where its assert is not guarded" % a)
+            return "(%s l)" % field
+        fail(n, "Location.__str__: counter expression not whitelisted")
+
+    def str_expr(n, cur, known):
+        if isinstance(n, ast.Constant) and isinstance(n.value, str):
+            return g_text(n.value)
+        if isinstance(n, ast.Name) and n.id == "result" and cur is not None:
+            return cur
+        if isinstance(n, ast.BinOp) and isinstance(n.op, ast.Add):
+            return "(%s ++ %s)" % (str_expr(n.left, cur, known), str_expr(n.right, cur, known))
+        if isinstance(n, ast.Call) and ast.unparse(n.func) == "os.path.basename" and len(n.args) == 1 and _self_attr(n.args[0]) == "file_path":
+            return "(basename (lo_path l))"
+        if isinstance(n, ast.BinOp) and isinstance(n.op, ast.Mod) and isinstance(n.left, ast.Constant) and isinstance(n.left.value, str):
+            args = list(n.right.elts) if isinstance(n.right, ast.Tuple) else [n.right]
+            parts = n.left.value.split("%d")
+            if len(parts) != len(args) + 1 or any("%" in q for q in parts):
+                fail(n, "Location.__str__: only %d directives are understood")
+            pieces = []
+            for i, q in enumerate(parts):
+                if q:
+                    pieces.append(g_text(q))
+                if i < len(args):
+                    pieces.append("dec_of %s" % counter_expr(args[i], known))
+            return "(" + " ++ ".join(pieces or ["[]"]) + ")"
+        fail(n, "Location.__str__: string expression not whitelisted")
+
+    def block(stmts, cur, known):
+        """returns (let-lines, name of the current value of result, returned?)"""
+        lines = []
+        for st in stmts:
+            if isinstance(st, ast.Expr) and isinstance(st.value, ast.Constant):
+                continue
+            if isinstance(st, ast.Assign) and len(st.targets) == 1 and ast.unparse(st.targets[0]) == "result":
+                e = str_expr(st.value, cur, known)
+            elif isinstance(st, ast.AugAssign) and isinstance(st.op, ast.Add) and ast.unparse(st.target) == "result" and cur is not None:
+                e = "(%s ++ %s)" % (cur, str_expr(st.value, cur, known))
+            elif isinstance(st, ast.If) and _self_attr(st.test) in LOC_FLAGS and cur is not None:
+                flag = LOC_FLAGS[_self_attr(st.test)]
+                l1, c1 = block(st.body, cur, known + [flag])
+                l2, c2 = block(st.orelse, cur, known)
+                e = "(if %s l then %s%s else %s%s)" % (flag, "".join(l1), c1, "".join(l2), c2)
+            elif isinstance(st, ast.Return) and ast.unparse(st.value) == "result" and st is stmts[-1] and cur is not None:
+                break
+            else:
+                fail(st, "Location.__str__: statement not whitelisted")
+            counter[0] += 1
+            name = "r%d" % counter[0]
+            lines.append("let %s := %s in " % (name, e))
+            cur = name
+        return lines, cur
+
+    if not (fn.body and isinstance(fn.body[-1], ast.Return)):
+        fail(fn, "Location.__str__ must end in `return result`")
+    lines, cur = block(fn.body, None, [])
+    out.append("Definition g_str (l : location) : text :=\n  " + "\n  ".join(lines) + cur + ".")
+    return "\n".join(out) + "\n"
+
+
 GENERATORS = {
     "Consts.v": gen_consts,
     "SqlLadders.v": gen_sql,
     "ExitCodes.v": gen_exit_codes,
     "FormatTable.v": gen_format_table,
+    "LocationOps.v": gen_location,
 }
 
 
